@@ -208,6 +208,11 @@ impl Ctx {
     pub fn extra(&self, k: &str, v: Value) {
         self.inner.lock().unwrap().extra.insert(k.to_string(), v);
     }
+    /// the toy instantiation of the subject's macro is unavailable in this build: say so, the exploration is not exhaustive
+    pub fn degraded(&self, what: &str) {
+        println!("DEGRADED property={} {} skipped: the extracted curve_impl! macro did not compile against the harness's toy stubs", self.id, what);
+        self.cap_hit(format!("toy instantiation unavailable: {} skipped", what));
+    }
     pub fn cap_hit<S: Into<String>>(&self, s: S) {
         self.inner.lock().unwrap().caps_hit.push(s.into());
     }
